@@ -104,6 +104,22 @@ Proof.
   induction ks as [|k ks IH]; [reflexivity|]. cbn [map oconcat]. rewrite IH, fl_record. destruct k; reflexivity.
 Qed.
 
+Lemma in_current_row : lookup_row model_shapes "Instrument::in_current_span" = Some [SInvoke "Span::current"; SInvoke "Instrument::instrument"].
+Proof. vm_compute. reflexivity. Qed.
+
+Lemma drop_from_shapes : forall o t n ms, drop_micros o t n = Some ms -> emit_drop model_shapes o t n = Some ms.
+Proof.
+  intros o t n ms H. unfold drop_micros in H. unfold emit_drop. cbv beta iota zeta.
+  abstract (cases H; fin H).
+Qed.
+Lemma drops_from_shapes : forall ls o t r, drops o t ls = Some r -> emit_drops model_shapes o t ls = Some r.
+Proof.
+  induction ls as [|n ls]; intros o t r H; simpl in H |- *; [exact H|].
+  destruct (drop_micros o t n) as [ms|] eqn:E; [|discriminate]. rewrite (drop_from_shapes _ _ _ _ E).
+  destruct (oexec ms o) as [o1|]; [|discriminate]. destruct (drops o1 t ls) as [[ms' o2]|] eqn:E2; [|discriminate].
+  rewrite (IHls _ _ _ E2). exact H.
+Qed.
+
 Theorem compile_from_shapes : forall o t a ms, compile o t a = Some ms -> emit_tbl model_shapes o t a = Some ms.
 Proof.
   intros o t a ms H. destruct a; cbn [compile] in H; unfold emit_tbl; cbv beta iota zeta.
@@ -111,7 +127,7 @@ Proof.
   - (* Clone *) abstract (cases H; fin H).
   - (* Current *) abstract (cases H; fin H).
   - (* OrCurrent *) abstract (cases H; fin H).
-  - (* Drop *) abstract (cases H; fin H).
+  - (* Drop *) apply drop_from_shapes; exact H.
   - (* Enter *) abstract (cases H; fin H).
   - (* DropGuard *) abstract (cases H; fin H).
   - (* Entered *) abstract (cases H; fin H).
@@ -130,6 +146,17 @@ Proof.
   - (* CloneDrop *) abstract (cases H; inversion H; subst; clear H;
       destruct (ents_on o r) as [|e [|e' l]]; try destruct (e_kind e); rewrite ?fl_clone, ?fl_es_clone, fl_dropglue; reflexivity).
   - (* CloneFrom *) abstract (cases H; inversion H; subst; clear H; rewrite fl_clone_from; reflexivity).
+  - (* PDrop *) apply drop_from_shapes; exact H.
+  - (* ScopeEndL *)
+    destruct (drops o t ls) as [[ms0 o']|] eqn:Ed; [|discriminate]. rewrite (drops_from_shapes _ _ _ _ Ed). cbn [obind fst snd].
+    destruct (top_frame o' t) as [e|]; [|discriminate]. cbn [obind].
+    abstract (cases H; inversion H; subst; clear H; rewrite fl_in_scope; destruct unwind; reflexivity).
+  - (* PollEndL *)
+    destruct (drops o t ls) as [[ms0 o']|] eqn:Ed; [|discriminate]. rewrite (drops_from_shapes _ _ _ _ Ed). cbn [obind fst snd].
+    destruct (top_frame o' t) as [e|]; [|discriminate]. cbn [obind].
+    abstract (cases H; inversion H; subst; clear H; cbn [obind]; rewrite shape_poll; destruct res; reflexivity).
+  - (* InstrumentCurrent *)
+    rewrite in_current_row. abstract (cases H; inversion H; subst; clear H; rewrite fl_instrument; reflexivity).
   - (* PollBegin *) abstract (cases H; fin H).
   - (* PollEnd *) abstract (destruct (top_frame o t) as [e|]; [|discriminate H]; cbn [obind];
       cases H; inversion H; subst; clear H; cbn [obind]; rewrite shape_poll; destruct res; reflexivity).
@@ -169,8 +196,8 @@ Theorem md_current_from_shapes : forall n t d,
 Proof.
   intros n t d. unfold ctor_run. cbn [md0]. unfold do_current.
   destruct (cur_default d t) as [|pc]; [vm_compute; reflexivity|].
-  cbv -[stack_of per_handle d_log d_vals d_defaults d_next d_made d_dropped d_disp d_hid d_hlog].
-  destruct (per_handle (N.pos pc)); [reflexivity|]. destruct (stack_of (d_log d) (N.pos pc) t); reflexivity.
+  cbv -[stack_of d_log d_vals d_defaults d_next d_made d_dropped d_disp d_hid d_hlog].
+  destruct (stack_of (d_log d) (N.pos pc) t); reflexivity.
 Qed.
 
 Theorem md_or_current_from_shapes : forall n t d,
@@ -179,8 +206,8 @@ Proof.
   intros n t d. unfold ctor_run. cbn [md0]. unfold do_current.
   destruct (val_of d n) eqn:Ev; [| vm_compute; reflexivity ..].
   destruct (cur_default d t) as [|pc]; [vm_compute; reflexivity|].
-  cbv -[stack_of per_handle d_log d_vals d_defaults d_next d_made d_dropped d_disp d_hid d_hlog].
-  destruct (per_handle (N.pos pc)); [reflexivity|]. destruct (stack_of (d_log d) (N.pos pc) t); reflexivity.
+  cbv -[stack_of d_log d_vals d_defaults d_next d_made d_dropped d_disp d_hid d_hlog].
+  destruct (stack_of (d_log d) (N.pos pc) t); reflexivity.
 Qed.
 
 (** * The interpreter tells the shapes apart: the rows the two seeded mutants of /verif/seeded/C03-{A,B} produce *)
